@@ -183,6 +183,10 @@ pub fn gen_lib(src: &mut Src) -> (LefLibrary, Flags) {
     ALLOW_UNSUPPORTED.with(|a| a.set(allow_u));
     let nm = src.usize_in(1, 5);
     let mut lib = LefLibrary::new();
+    // a library may state its manufacturing grid; it says nothing about how coordinates are imported
+    if src.prob(1, 3) {
+        lib.manufacturing_grid = Some(*src.pick(&[LefDecimal::new(5, 3), LefDecimal::new(1, 3), LefDecimal::new(1, 4), LefDecimal::new(1, 2), LefDecimal::new(25, 4)]));
+    }
     for mi in 0..nm {
         let mut m = LefMacro::new(format!("{}{}", gen_name(src), mi));
         let mut fine = false;
